@@ -459,9 +459,23 @@ def run(ctx):
             got = f"raises {e.exc_name}"
         r4.check(got is want, f"last-saved instance[{desc}]", f"{'declared' if want else 'not declared'}", gls.loc(), why_fail=f"got {got}")
     gi = scls.methods["_generate_instances"]
-    gl_calls = [c for c in ast.walk(gi.node) if isinstance(c, ast.Call) and call_name(c) == "_generate_last_saved_instance"]
-    sect_ok = any(any("Section" in t for t in guard_texts(c, stop=gi.node)) for c in gl_calls)
-    r4.check(sect_ok, "_generate_instances:sections", "groups and repeats are handed to the last-saved detector too", gi.loc(), why_fail="the detector is only called for questions")
+    # every kind of element is handed to the detector (evaluated: the instance generator on elements of which exactly one -
+    # a question, a group or a repeat - uses last-saved; the detector is a stub that reads a marker on the element)
+    for who_ in ("question", "group", "repeat", "nobody"):
+        els_ = {"question": _mk7b(ctx, iq_, "q1", type="text"), "group": _mk7b(ctx, gcls_, "g1", type="group", children=[]), "repeat": _mk7b(ctx, rcls_, "r1", type="repeat", children=[])}
+        hooks_ = {"fnname:node": node_hook, "fnname:iter_descendants": lambda i, a, k, n, els_=els_: list(els_.values()),
+                  "fnname:_generate_pulldata_instances": lambda i, a, k, n: GenList([]), "fnname:_generate_from_file_instances": lambda i, a, k, n: None,
+                  "fnname:_generate_last_saved_instance": lambda i, a, k, n, who_=who_, els_=els_: k.get("element", a[-1] if a else None) is els_.get(who_),
+                  "fnname:_get_last_saved_instance": lambda i, a, k, n: Obj(None, {"name": "__last-saved", "src": "jr://instance/last-saved", "type": "instance", "context": "c",
+                                                                                  "instance": NodeVal("instance", attrs={"id": "__last-saved"})}, name="info"),
+                  "fnname:_generate_static_instances": lambda i, a, k, n: None}
+        itg_ = ctx.interp("C09.R4", hooks=hooks_)
+        itg_.reset([])
+        try:
+            outg_ = [x.attrs.get("id") for x in itg_.call_function(gi, [Obj(scls, {"choices": None}, name="survey")], {}, None, gi.node) if isinstance(x, NodeVal)]
+        except Raised as e:
+            outg_ = f"raises {e.exc_name}{e.exc_args}"
+        r4.check(outg_ == (["__last-saved"] if who_ != "nobody" else []), f"_generate_instances[last-saved used by: {who_}]", "the last-saved instance is declared exactly when some element - of any kind - uses it", gi.loc(), why_fail=repr(outg_))
     rules.append(r4)
 
     # ------------------------------------------------------------------ R5
